@@ -42,9 +42,9 @@ def free_name_rules(eng: Engine, ck: Check, rule: str):
         sa_n = single_assignments(nd)
         lst = [x for x in calls_in(nd.node) if pat.match(x, pat.compile_pattern(f'os.listdir({dirp})')[0]) is not None]
         facts['the directory listing of local_dir is consulted'] = len(lst) == 1
-        ms = [x for x in calls_in(nd.node) if call_name(x) in ('match', 'fullmatch') and len(x.args) == 2]
-        facts['every listed name is matched against escape(stem) + PATTERN + escape(ext)'] = len(ms) == 1 and pat.match(
-            expand_aliases(nd, ms[0].args[0]), pat.compile_pattern(f're.escape({stem}) + self.PATTERN + re.escape({ext})')[0]) is not None
+        ms = regex_match_sites(nd)
+        facts['every listed name is matched against escape(stem) + PATTERN + escape(ext)'] = len(ms) == 1 and string_parts(ms[0][1]) == [
+            f're.escape({stem})', 'self.PATTERN', f're.escape({ext})']
         idx_src = pfind(nd.node, 'int($m.group(1))')
         facts['the captured number of every match is collected'] = len(idx_src) == 1
         # the list the numbers go to
